@@ -567,3 +567,12 @@ func genC13(g *gen) {
 		g.emit(steps...)
 	}
 }
+
+func init() {
+	generators["C01"] = genC01
+	generators["C02"] = genC02
+	generators["C03"] = genC03
+	generators["C04"] = genC04
+	generators["C05"] = genC05
+	generators["C13"] = genC13
+}
